@@ -292,7 +292,13 @@ do_email (long *v, int nv)
             int lrc = locals[m].f (L, L + at - 1), want = 1000, widn = 0;
             /* the local part handed over is delimited by '@', not NUL: also try it NUL-terminated */
             rcl[m] = lrc;
-            if (lrc != 0) want = lrc;
+            int alt = 1000;        /* when both halves are invalid either reason is a composition of the part validators */
+            if (lrc != 0) {
+                want = lrc;
+                if (*D != '[') alt = m < 3 ? is_ascii_domain (D, end) : utf8dom (&widn, D, end, tld);
+                else alt = rc;     /* literal: no public composite validator to compare with */
+                if (alt >= 0) alt = 1000;
+            }
             else if (*D != '[') {
                 if (m < 3) {
                     int drc = is_ascii_domain (D, end);
@@ -302,11 +308,11 @@ do_email (long *v, int nv)
                     else { const char *dot = strrchr (D, '.'); want = dot ? is_tld (dot + 1, end) : -EEAV_DOMAIN_NOT_FQDN; }
                 } else {
                     want = utf8dom (&widn, D, end, tld);
-                    if (widn != idn) viol ("email", "composition-idn", mode, ob * 2 + tld, b, n, widn, idn, rc);
+                    if (widn != idn && lrc == 0) viol ("email", "composition-idn", mode, ob * 2 + tld, b, n, widn, idn, rc);
                 }
             }
             cnt.calls++;
-            if (want != 1000 && want != rc)
+            if (want != 1000 && want != rc && !(alt != 1000 && alt == rc))
                 viol ("email", "composition", mode, ob * 2 + tld, b, n, want, rc, lrc);
         }
         unplace ();
@@ -539,6 +545,9 @@ do_history (long *v, int nv)
             if (fault != 0) die ("fault plan needs the wrap build");
 #endif
             p = place_bytes (pool_b[idx], pool_n[idx], k & 1);
+#ifdef VERIF_WRAP
+            long conv_before = wrap_conv_calls;
+#endif
             ret = eav_is_email (ev, p, pool_n[idx]);
             err = ev->errcode; rc = ev->result->rc; fl = res_flags (ev->result);
             msg = eav_errstr (ev);
@@ -564,6 +573,13 @@ do_history (long *v, int nv)
             else if (fault != 0 && rc == -EEAV_IDN_ERROR
                      && (ev->result->idn_rc != fault || fl != 0 || strcmp (msg, IDN_MSG (fault)) != 0))
                 hist_viol ("IDN failure not reported with the library's message", v, nsteps, k, fault, ev->result->idn_rc, fl);
+#ifdef VERIF_WRAP
+            /* C19: the converter was consulted and failed (with or without an output buffer): the address must be
+             * rejected as an IDN error, whatever the buffer holds */
+            else if (fault != 0 && wrap_conv_calls > conv_before
+                     && (ret != 0 || err != EEAV_IDN_ERROR || fl != 0))
+                hist_viol ("IDN failure not contained: converter failed but the address is not rejected as an IDN error", v, nsteps, k, fault, err, rc);
+#endif
             else if (ret != s[3] || err != s[5] || rc != s[6] || fl != s[7]) {
                 cnt.drift++;
                 fprintf (f_drift, "{\"e\":\"hist\",\"step\":%d,\"idx\":%d,\"fault\":%d,\"ret\":%d,\"err\":%d,\"rc\":%d,\"fl\":%d,"
@@ -580,7 +596,15 @@ do_history (long *v, int nv)
             if (msg == NULL)
                 hist_viol ("errstr NULL", v, nsteps, k, 0, 0, 0);
             else if (s[3] == EEAV_INVALID_RFC) {      /* after a refused eav_setup: must report the invalid-RFC condition */
-                if (!strcasestr (msg, "rfc")) hist_viol ("errstr after refused setup", v, nsteps, k, EEAV_INVALID_RFC, ev->errcode, 0);
+                /* = what a fresh object reports after a refused setup, and not the "no error" text (wording is free) */
+                eav_t f1, f2;
+                char noerr[256], badrfc[256];
+                const char *m1, *m2;
+                eav_init (&f1); m1 = eav_errstr (&f1); snprintf (noerr, sizeof noerr, "%s", m1 ? m1 : "");
+                eav_init (&f2); f2.rfc = (EAV_RFC) 7; (void) eav_setup (&f2); m2 = eav_errstr (&f2); snprintf (badrfc, sizeof badrfc, "%s", m2 ? m2 : "");
+                eav_free (&f1); eav_free (&f2);
+                if (!*msg || strcmp (msg, noerr) == 0 || strcmp (msg, badrfc) != 0)
+                    hist_viol ("errstr after refused setup", v, nsteps, k, EEAV_INVALID_RFC, ev->errcode, 0);
             }
             else if (lastmsg[0] && strcmp (msg, lastmsg) != 0)
                 hist_viol ("errstr does not describe the most recent validation", v, nsteps, k, s[3], ev->errcode, 0);
@@ -606,7 +630,9 @@ do_history (long *v, int nv)
         hist_viol ("backend context not released after eav_free", v, nsteps, nsteps, 0, adapter_ctx_live, 0);
     if (adapter_ctx_bad != 0)
         hist_viol ("backend context created twice or destroyed twice", v, nsteps, nsteps, 0, adapter_ctx_bad, 0);
-    adapter_ctx_live = 0; adapter_ctx_bad = 0;
+    if (adapter_nullctx_use != 0)
+        hist_viol ("conversion attempted with a destroyed or missing backend context", v, nsteps, nsteps, 0, adapter_nullctx_use, 0);
+    adapter_ctx_live = 0; adapter_ctx_bad = 0; adapter_nullctx_use = 0;
 #endif
 #ifdef VERIF_WRAP
     wrap_track = 0;
@@ -891,7 +917,14 @@ do_random_histories (long *v, int nv)
     for (int h = 0; h < nhist; h++) {
         eav_t *ev = malloc (sizeof *ev);
         int live = 0, confirmed = 0;
-        fprintf (f, "{\"e\":\"reset\"}\n");
+        {   /* reference messages of this build: "no error" and "refused setup" on fresh objects (wording is free) */
+            eav_t f1, f2;
+            eav_init (&f1); eav_init (&f2); f2.rfc = (EAV_RFC) 7; (void) eav_setup (&f2);
+            fprintf (f, "{\"e\":\"reset\",\"noerr\":"); put_cstr_bytes (f, eav_errstr (&f1));
+            fprintf (f, ",\"badrfc\":"); put_cstr_bytes (f, eav_errstr (&f2));
+            fprintf (f, "}\n");
+            eav_free (&f1); eav_free (&f2);
+        }
 #ifdef VERIF_WRAP
         wrap_reset (); wrap_track = 1;
 #endif
